@@ -1,7 +1,7 @@
 (** Top-level statements for validated tables (no error recovery): the parser accepts exactly the
     sentences of the grammar and returns their derivation tree. *)
 From Coq Require Import List ZArith Bool Arith Lia.
-From LV Require Import LR.Driver LR.Validator LR.Safety LR.ValidatorSpec LR.Soundness LR.Completeness.
+From LV Require Import LR.Driver LR.Validator LR.Safety LR.ValidatorSpec LR.Soundness LR.Completeness LR.ErrorPos.
 Import ListNotations.
 
 Section Main.
@@ -77,3 +77,26 @@ Proof.
   rewrite Hy in Hs1. rewrite Hs1 in Hs2. congruence.
 Qed.
 End Main.
+
+(** ExtraToken is never returned on validated tables (no recovery). *)
+Section NoExtra.
+Variable A : tables.
+Variable C : cert.
+Hypothesis Hvalid : valid A C = true.
+Hypothesis Hnorec : uses_recovery A = false.
+
+Theorem no_extra_token orc fuel w k s :
+  Forall (tok_in_range A) w ->
+  drive A orc fuel (map IOk w) <> (RErr (PExtra k), s).
+Proof.
+  intros Hw H. destruct (valid_proj A C Hvalid) as (Hs & _ & _ & Hse & _).
+  destruct (ErrorPos.extra_token_only_from_start_reduce A orc fuel w k s Hnorec H) as (Hin & i & Hi & Ht).
+  rewrite Forall_forall in Hw. specialize (Hw k Hin). unfold tok_in_range in Hw. rewrite Hi in Hw.
+  rewrite (names_term A C Hs Hnorec) in Hw.
+  assert (Hst : top_state (stk s) < n_states A).
+  { eapply (tact_state A C Hs _ (Some i) _ Ht); [discriminate|left; lia]. }
+  unfold start_eof_only in Hse. rewrite forallb_forall in Hse.
+  specialize (Hse _ (proj2 (seq_in _ _) Hst)). rewrite forallb_forall in Hse.
+  specialize (Hse i (proj2 (seq_in _ _) Hw)). rewrite Ht, Nat.eqb_refl in Hse. discriminate.
+Qed.
+End NoExtra.
